@@ -360,10 +360,15 @@ fn run_cfg(fam: &str) -> String {
     let r = guarded(|| f.build());
     match r {
         Ok(Ok(syn)) => {
-            // a configuration that is accepted must lex a probe without panicking or hanging
-            let probe = format!("a {} v {} b {} if t {} c {} x {} d", f.vs(), f.ve(), f.bs(), f.be(), f.cs(), f.ce());
+            // a configuration that is accepted must lex a probe without panicking or hanging, and
+            // render it either as written or not at all (syntax error)
+            let probe = format!("a {} v {} b {} if t {}c{} endif {}{} x {} d", f.vs(), f.ve(), f.bs(), f.be(), f.bs(), f.be(), f.cs(), f.ce());
             let p = guarded(|| tokenize(&probe, false, syn, WhitespaceConfig::default()).take(10_000).count());
-            format!("cfg {}\tbuild=ok\tprobe={}", fam, match p { Ok(n) if n < 10_000 => "ok", Ok(_) => "runaway", Err(_) => "panic" })
+            let rendered = match mk_env("001", &f) {
+                Some(env) => render(&env, &probe),
+                None => "badcfg".into(),
+            };
+            format!("cfg {}\tbuild=ok\tprobe={}\trender={}", fam, match p { Ok(n) if n < 10_000 => "ok", Ok(_) => "runaway", Err(_) => "panic" }, rendered)
         }
         Ok(Err(e)) => format!("cfg {}\tbuild=err:{}", fam, error_kind_name(&e)),
         Err(_) => format!("cfg {}\tbuild=panic", fam),
@@ -944,6 +949,19 @@ fn gen_cfg(out: &mut impl Write) {
         Fam::new("dup-line-comment-var", ["{%", "%}", "{{", "}}", "{#", "#}", "", "{{"]),
         Fam::new("dup-line-both", ["{%", "%}", "{{", "}}", "{#", "#}", "#", "#"]),
         Fam::new("all-same", ["@", "@", "@", "@", "@", "@", "@", "@"]),
+        // end delimiters
+        Fam::new("empty-var-end", ["{%", "%}", "{{", "", "{#", "#}", "", ""]),
+        Fam::new("empty-block-end", ["{%", "", "{{", "}}", "{#", "#}", "", ""]),
+        Fam::new("empty-comment-end", ["{%", "%}", "{{", "}}", "{#", "", "", ""]),
+        Fam::new("ws-lead-var-end", ["{%", "%}", "{{", " }}", "{#", "#}", "", ""]),
+        Fam::new("ws-lead-block-end", ["{%", "\n%}", "{{", "}}", "{#", "#}", "", ""]),
+        Fam::new("ws-lead-comment-end", ["{%", "%}", "{{", "}}", "{#", " #}", "", ""]),
+        Fam::new("ws-trail-ends", ["{%", "%} ", "{{", "}} ", "{#", "#} ", "", ""]),
+        Fam::new("ws-inner-ends", ["{%", "% }", "{{", "} }", "{#", "# }", "", ""]),
+        Fam::new("ws-starts", ["{% ", "%}", "{{ ", "}}", "{# ", "#}", "", ""]),
+        Fam::new("same-start-end", ["@", "@", "$", "$", "~~", "~~", "", ""]),
+        Fam::new("ident-ends", ["<b", "b>", "<v", "v>", "<c", "c>", "", ""]),
+        Fam::new("marker-ends", ["[%", "-]", "[[", "+]", "[#", "-]", "", ""]),
     ];
     for f in bad {
         emit(out, run_cfg(&f.enc()));
